@@ -6,6 +6,7 @@
   interleaving of the producer (`add … add; stop; join`) with the workers,
   spurious wake-ups included.
 -/
+import CSD.Lemmas.PoolTerm3
 import CSD.Lemmas.PoolThms
 import CSD.Generated.PoolOps
 
@@ -52,11 +53,25 @@ theorem model_matches_source :
     CSD.Generated.poolOps = sourceShape ∧ CSD.Generated.rawQueueUses = 4 ∧ CSD.Generated.rawStoppedUses = 4 :=
   ⟨rfl, rfl, rfl⟩
 
-/-- `terminates_partial`: what is *not* proved is that every execution is finite
-(a lexicographic measure over the remaining producer ops, the queue and the
-pending notifications); `no_deadlock` gives completion of the shutdown under the
-assumption that the scheduler eventually runs an enabled thread.
-Non-vacuity: the initial state is reachable and is not terminal. -/
+/-- **Every execution is finite.** Whatever the schedule — any interleaving of the producer and the `n`
+workers, with any number of spurious wake-ups injected by the environment — the producer and the workers
+together perform at most `(4n+1)(3T+n+4) + (4n+7)T + n(4n+8)` steps plus four per spurious wake-up
+(`T` tasks). Proof: a potential (remaining producer steps, tasks not yet taken, a local rank per worker)
+that every program step lowers; a `notify_all` is paid for by the step that issues it. -/
+theorem every_execution_is_finite (n : Nat) (tasks : List Nat) (sched : List Tid) (s : State)
+    (h : runSched step (init n tasks) sched = some s) :
+    progSteps sched ≤ K n * (3 * tasks.length + n + 4) + (K n + 6) * tasks.length + n * (K n + 7) + 4 * spurSteps sched :=
+  bounded_run n tasks sched s h
+
+/-- **Completion.** A run that cannot be extended (no thread of the program can move) has finished the
+job: the producer has returned from `wait_workers` and every task has run exactly once. Together with
+the bound above: every fair execution terminates with the work done. -/
+theorem maximal_run_completes (n : Nat) (hn : 0 < n) (tasks : List Nat) (sched : List Tid) (s : State)
+    (h : runSched step (init n tasks) sched = some s) (hstuck : Stuck step s) :
+    s.prod = .done ∧ ∀ x, s.ran.count x = tasks.count x :=
+  maximal_run_is_complete n hn tasks sched s h hstuck
+
+/-- Non-vacuity: the initial state is reachable and is not terminal. -/
 example : Reachable 2 [7, 8] (init 2 [7, 8]) ∧ (init 2 [7, 8]).prod ≠ .done :=
   ⟨Reachable.init, by decide⟩
 
